@@ -336,6 +336,34 @@ class CallMixin:
         key = f"isinstance({_describe(v)},{'|'.join(sorted(q.rsplit('.', 1)[-1] for q in quals))})"
         return self.unknown_bool(key)
 
+    def _node_method_tuple_width(self, n: NodeV, name: str) -> Optional[int]:
+        """If the method of every class the node can have always returns a tuple of one fixed length, that length
+        (found by evaluating the method once per class; cached)."""
+        cache = self.shared.setdefault("node_method_width", {})
+        widths = set()
+        for kind in sorted(n.kinds):
+            key = (kind, name)
+            if key not in cache:
+                cache[key] = None
+                r = self.repo.lookup_method(AST_PREFIX + kind, name)
+                if r is not None:
+                    ci, fn = r
+                    is_prop = any(isinstance(d, ast.Name) and d.id == "property" for d in fn.decorator_list)
+                    if not is_prop:
+                        try:
+                            child = self.__class__(self.repo, self.schema, self.kinds)
+                            child.shared = self.shared
+                            paths = child.explore(lambda it_, ci=ci, fn=fn, kind=kind: (ci.module, fn, [NodeV("node", {kind})], {}, ci.qual), max_paths=2000)
+                            ws = {len(p.value.items) if isinstance(p.value, PyTuple) else None for p in paths if p.outcome == "return"}
+                            if len(ws) == 1 and None not in ws:
+                                cache[key] = ws.pop()
+                        except AnalysisError:
+                            cache[key] = None
+            widths.add(cache[key])
+        if len(widths) == 1 and None not in widths:
+            return widths.pop()
+        return None
+
     def hasattr_v(self, v: V, name: V) -> bool:
         v = self.resolve_alt(v)
         if not (isinstance(name, Const) and isinstance(name.v, str)):
@@ -418,6 +446,12 @@ class CallMixin:
         if isinstance(func, RefV):
             return self.call_ref(func, args, kwargs, module, node, env)
         if isinstance(func, Sym):
+            if func.op == "attr" and func.args[1] == "get" and len(args) in (1, 2) and not kwargs and isinstance(func.args[0], Sym) \
+                    and func.args[0].op == "cfg":
+                # <mapping attribute of self>.get(k[, default]): the same two cases as `m[k] if k in m else default`
+                if self.contains(func.args[0], self.resolve_alt(args[0]), "mapping.get"):
+                    return Sym("item", func.args[0], args[0])
+                return args[1] if len(args) == 2 else NONE
             if func.op == "attr" and func.args[1] == "groups" and not args and not kwargs:
                 # <constant regex>.match/fullmatch/search(text).groups(): one entry per capture group of the pattern
                 mt = func.args[0]
@@ -441,7 +475,12 @@ class CallMixin:
                 self.event("node_method", node=_describe(n), method=name)
                 if name == "unpack" or name.startswith("py_"):
                     self.may_raise("builtins.ValueError", f"{_describe(n)}.{name}()")
-                return Sym("meth", n, name, tuple(args), hint="str" if name in ("full_name", "wkt") else None)
+                res = Sym("meth", n, name, tuple(args), hint="str" if name in ("full_name", "wkt") else None)
+                if not args and not kwargs and isinstance(n, NodeV):
+                    width = self._node_method_tuple_width(n, name)
+                    if width is not None:
+                        return PyTuple([Sym("elem", res, i) for i in range(width)])
+                return res
             if func.op == "dynmethod":
                 obj, prefix, key = func.args
                 self.event("dispatch", prefix=prefix, key=key, args=args, kwargs=dict(kwargs))
@@ -1034,6 +1073,18 @@ class CallMixin:
                     elem = per[0] if len(per) == 1 else AltV(per)
                     parts.append(("join", sep, elem, over))
                 return Str(parts)
+            if isinstance(seq, Sym) and seq.op == "call" and isinstance(seq.args[0], Sym) and seq.args[0].op == "attr" and seq.args[0].args[1] == "split" \
+                    and isinstance(seq.args[0].args[0], Sym) and seq.args[0].args[0].op == "regex" and len(seq.args[1]) == 1 and not seq.args[2]:
+                # new.join(REGEX.split(text))  ==  REGEX.sub(new, text)  when REGEX has no capture group and cannot match the empty string
+                import re as _re
+                rxv = seq.args[0].args[0]
+                try:
+                    cre = _re.compile(rxv.args[0])
+                    plain = cre.groups == 0 and cre.fullmatch("") is None and _rx_min_width(rxv.args[0]) > 0
+                except _re.error:
+                    plain = False
+                if plain and isinstance(sep, Const) and isinstance(sep.v, str) and "\\" not in sep.v:
+                    return Sym("call", Sym("attr", rxv, "sub"), (sep, seq.args[1][0]), (), hint="str")
             if isinstance(seq, AbsList) and getattr(seq, "_split_of", None) is not None and seq.minlen == 1 and seq.order == ["?"] \
                     and isinstance(sep, Const) and isinstance(sep.v, str):
                 # new.join(text.split(old))  ==  text.replace(old, new)   (old is a non-empty constant)
@@ -1141,6 +1192,12 @@ class CallMixin:
                 return hit
             if getattr(d, "shared_name", None):
                 self.event("shared_miss_assumed", target=d.shared_name)
+                return self.dict_lookup_opaque(d, a[0], default)
+            if d.opaque_keys and not isinstance(a[0], (Const, RefV)):
+                # d.get(k, default) with a symbolic key: the same two cases as `d[k] if k in d else default`
+                if self.contains(d, self.resolve_alt(a[0]), "dict.get"):
+                    return Sym("item", d, a[0])
+                return default
             return self.dict_lookup_opaque(d, a[0], default)
         if name == "items":
             if not d.opaque_keys:
@@ -1214,3 +1271,16 @@ class CallMixin:
 
 def _kw(kwargs: Dict[str, V]) -> tuple:
     return tuple(sorted(kwargs.items(), key=lambda kv: kv[0]))
+
+
+def _rx_min_width(pattern: str) -> int:
+    """Minimal width of a match of the pattern (0 = can match the empty string), from the parsed pattern."""
+    import re as _re
+    try:
+        parser = _re._parser  # type: ignore[attr-defined]
+    except AttributeError:  # pragma: no cover
+        import sre_parse as parser  # type: ignore
+    try:
+        return parser.parse(pattern).getwidth()[0]
+    except Exception:
+        return 0
